@@ -31,12 +31,20 @@ def tasks(tier):
   out.append(dict(impl='sketchy', d=2, k=1, decay=0.25))
   out.append(dict(impl='sketchy', d=3, k=1, decay=0.25, gshape=[3, 2], axis=0))
   out.append(dict(impl='sketchy', d=2, k=1, decay=0.25, gshape=[3, 2], axis=1))
+  # F0: the statistics factor handed to the DS sketch (QR of the gradient unfolded along the preconditioned axis), every axis of
+  # rank-2/3 blocks incl. interior axes and d > product of the other dimensions
+  for gs in ([2, 3, 2], [3, 2], [3, 1, 2]):
+    for ax in range(len(gs)):
+      out.append(dict(impl='ds_factor', d=gs[ax], k=0, decay=1.0, gshape=gs, axis=ax))
   if tier == 'thorough':
+    for gs in ([2, 2, 3, 2], [4, 2, 3], [2, 4, 1], [5], [2, 3, 3]):
+      for ax in range(len(gs)):
+        out.append(dict(impl='ds_factor', d=gs[ax], k=0, decay=1.0, gshape=gs, axis=ax))
     out += [dict(impl='sketchy', d=4, k=2, decay=0.25), dict(impl='sketchy', d=4, k=1, decay=0.5625),
             dict(impl='oco', d=4, k=3, decay=1.0), dict(impl='oco', d=4, k=2, decay=1.0),
             dict(impl='ds', d=5, k=1, decay=0.25), dict(impl='ds', d=5, k=2, decay=0.5625), dict(impl='ds', d=5, k=1, decay=0.25, pad=1)]
   for t in out:
-    if t['impl'] == 'oco':
+    if t['impl'] in ('oco', 'ds_factor'):
       t['decay'] = 1.0
   seen, uniq = set(), []
   for t in out:
@@ -123,6 +131,23 @@ def work(t):
             np.array([R.s_if(R.s_gt(newt, 0), I.pow(R.s_add(newt, eps), alpha), Fraction(0))], dtype=object), pre + facts)
     P.reach(f'{tag}|twin: contracts and pre-state satisfiable with t > 0', pre + facts, [zl(tail) > 0, zl(s[0]) > zl(s[min(k, len(s) - 1)])])
     rp = dict(impl=impl, d=d, k=k, decay=t['decay'], gshape=list(gshape), axis=axis)
+  elif impl == 'ds_factor':
+    from precondition import distributed_shampoo as ds
+    gshape, axis = tuple(t['gshape']), t['axis']
+    fn = lambda g: ds.frequent_directions_update(None, g, axis, 1.0, 1.0)
+    ex = jnp.zeros(gshape)
+    jp = jax.make_jaxpr(fn)(ex)
+    g = sym_like('g', ex)
+    out = toobj(I.eval(jp.jaxpr, jp.consts, g)[0])
+    qrecs = [r for r in ctx.decomps if r['kind'] == 'qr']
+    facts = [f for r in qrecs for f in stubs.qr_facts(r, 'gram')]
+    G = np.moveaxis(g, axis, 0).reshape(d, -1)
+    ok_shape = tuple(out.shape) == (d, d)
+    P.results.append(dict(name=f'{tag}|F0 statistics factor is d x d', kind='core', queries=0, status='unsat' if ok_shape else 'sat'))
+    if ok_shape:
+      P.equal(f'{tag}|F0 statistics factor R satisfies R R^T = unfold_axis(G) unfold_axis(G)^T (QR contract R^T R = X^T X)', mmT(out), mmT(G), facts)
+    P.reach(f'{tag}|twin: QR contract satisfiable with a non-zero gradient', facts, [zl(g.reshape(-1)[0]) != 0])
+    rp = dict(impl=impl, d=d, k=0, decay=1.0, gshape=list(gshape), axis=axis)
   elif impl == 'oco':
     from precondition.oco import algorithms as alg
     results = []
@@ -309,6 +334,19 @@ def concrete(rp, T=6):
         want = np.sqrt(np.maximum(s ** 2 - s[-1] ** 2, 0))
         if not np.allclose(np.asarray(st['e'], np.float64), want, rtol=1e-3, atol=1e-5):
           return (f'step {step}: sketch root-eigenvalues {np.asarray(st["e"])} != sqrt(s^2 - rho^2) = {want}', 'deflation')
+    elif impl == 'ds_factor':
+      from precondition import distributed_shampoo as ds
+      gshape, axis = tuple(rp['gshape']), rp['axis']
+      for step in range(T):
+        g = rng.randn(*gshape) * (10.0 ** rng.randint(-2, 3))
+        if step == T - 1:
+          g = np.arange(1, 1 + int(np.prod(gshape)), dtype=np.float64).reshape(gshape)
+        Rf = np.asarray(ds.frequent_directions_update(None, jnp.asarray(g, jnp.float32), axis, 1.0, 1.0), np.float64)
+        X = np.moveaxis(g, axis, 0).reshape(gshape[axis], -1)
+        want = X @ X.T
+        if Rf.shape != want.shape or not np.allclose(Rf @ Rf.T, want, rtol=1e-3, atol=1e-4 * np.abs(want).max()):
+          return (f'frequent_directions_update on a gradient block of shape {list(gshape)}, axis {axis}: R R^T = {np.round((Rf @ Rf.T).reshape(-1)[:4], 4)} '
+                  f'but the axis-{axis} Gram matrix of the gradient is {np.round(want.reshape(-1)[:4], 4)}', 'factor-gram')
     else:
       from precondition import distributed_shampoo as ds
       pad = rp.get('pad', 0)
@@ -360,11 +398,12 @@ def run(rep):
       'F1 the matrix handed to the SVD satisfies M M^T = b V diag(l) V^T + G G^T (through the QR factor for Sketchy), F2 new '
       'eigenvalues are s_i^2 - s_k^2 clamped at 0 and non-negative, new directions are the top-k singular vectors or zero, last OCO '
       'row zero, F3 escaped mass t\' = b t + s_k^2 (OCO: alpha\' = alpha + factor rho^2), F4 stored inverse roots are '
-      '(l\' + t\' [+ eps])^(-1/p); for ALL sketch states, gradients and singular outputs. Lemma (not solver-checked): F1-F3 imply '
+      '(l\' + t\' [+ eps])^(-1/p); F0 the DS statistics factor (frequent_directions_update) has the Gram matrix of the gradient unfolded '
+      'along the preconditioned axis, for every axis of rank-2..4 blocks; for ALL sketch states, gradients and singular outputs. Lemma (not solver-checked): F1-F3 imply '
       'the bracket V diag(l) V^T <= C <= V diag(l) V^T + t I by the standard FD argument.')
   rep.encode('precondition.tearfree.sketchy._update_axis', 'precondition/tearfree/sketchy.py')
   rep.encode('precondition.oco.algorithms._fd_update_fn/_fd_method_factors', 'precondition/oco/algorithms.py')
-  rep.encode('precondition.distributed_shampoo._fd_update_root/_fd_low_rank_pack/_fd_low_rank_unpack', 'precondition/distributed_shampoo.py')
+  rep.encode('precondition.distributed_shampoo._fd_update_root/_fd_low_rank_pack/_fd_low_rank_unpack/frequent_directions_update', 'precondition/distributed_shampoo.py')
   ts = tasks(rep.tier)
   rep.bounds = dict(tasks=len(ts), d=sorted({t['d'] for t in ts}), k=sorted({t['k'] for t in ts}), decay=sorted({t['decay'] for t in ts}),
                     history='one FD step from an arbitrary sketch state (l, t >= 0)')
